@@ -34,12 +34,30 @@ import (
 // by a value-range fact the code does not establish with a mask; (decoder extraction) it reads at
 // a shift where a field is packed, with a width that neither drops bits of the field nor reaches
 // into the next field. Anything of another shape inside an anchored function is `undecided`.
+//
+// Value maps (GB postcodes). Both sides are also read as piecewise linear maps: the encoder's
+// guarded assignments `if r >= lo && r <= hi { v = T(r - lo) + base }` give pieces r in [lo,hi] ->
+// v = r + k; the decoder's if/else-if chain over the extracted element
+// `if v >= a && v < b { … c + rune(v - a') … } else if … else { return "", false }` gives pieces
+// v in [a,b) -> r = v + k' (bounds and offsets are constant expressions evaluated by go/types, so
+// `10+('Z'-'A')` is 35). For every encoder piece: each value it produces lies in an accepting
+// decoder interval (the violation names the first value that is produced but rejected), and the
+// decoder piece is its inverse there (k' = -k). Decoder values that the encoder never produces
+// are recorded as `info`.
+//
+// Zoom guard (tile IDs). When the encoder rejects zooms with a top-level
+// `if z >= K { return … }` / `z > K` (the comparison may be an operand of ||, z may be converted),
+// the accepted zooms must be exactly the zooms whose layout fits the word: zBits + 2z <= 64 and
+// z < 1<<zBits, both computed from the extracted shifts. Rejecting a zoom that fits, or accepting
+// one that does not, is a violation. Without a guard the range of z stays C10's stated domain.
 func init() {
 	register(&Rule{
 		Name:  "BITFIELDS",
 		IR:    "ast",
-		Props: []string{"C10"},
-		Floor: 49, // 7 generic pairs: 16 encoder fields + 18 decoder extractions + 4 postcode range/bias obligations; 9 prefix-code; 2 map-tag functions
+		Props: []string{"C10", "C31"}, // C31: the GB postcode pair only (each obligation carries its own Props)
+		// postcode pair: 5 encoder-side + 3 decoder-side obligations + 2 alphabet pieces
+		FloorBy: map[string]int{"C31": 10},
+		Floor:   51, // + 2 postcode alphabet pieces; 7 generic pairs: 16 encoder fields + 18 decoder extractions + 4 postcode range/bias obligations; 9 prefix-code; 2 map-tag functions
 		Doc: "for each pack/unpack pair named by C10 (type+namespace, value type, geometry prefix code, member role/type, tile IDs, lat/lng IDs, GB postcode IDs, UK ONS IDs, point tags) " +
 			"the (shift, width) lists extracted from encoder and decoder by constant evaluation agree: equal shifts, decoder mask = (1<<width)-1 of the encoder's field, fields disjoint, every enumerated domain fits its field",
 		Run: runBitfields,
@@ -73,6 +91,10 @@ type cPairSpec struct {
 	symBound int64  // C10's bound on the value used as a symbolic shift (tile zoom <= 29); 0: none
 	symWhat  string // what the bound is
 	domain   func(b *cBit, sp *cPairSpec, enc *cSide, decs []*cSide, handled map[int]bool)
+	// after runs when the generic field/extraction obligations are out (its keys come last, so
+	// that the ordinals of the generic obligations do not move)
+	after func(b *cBit, sp *cPairSpec, enc *cSide, decs []*cSide)
+	props []string // nil: C10 only
 }
 
 type cSide struct {
@@ -88,16 +110,21 @@ type cSide struct {
 type cBit struct {
 	c     *Ctx
 	keys  *cKeys
+	props []string // properties of the pair being checked (nil: the rule's C10)
 	out   []Obligation
 	infos []Obligation // assumptions: keyed after all deciding obligations so that their ordinals stay put
 }
 
 func (b *cBit) add(fn string, pos token.Pos, status, detail string, path ...string) {
+	props := b.props
+	if props == nil {
+		props = []string{"C10"}
+	}
 	if status == Info {
-		b.infos = append(b.infos, Obligation{Key: fn, Pos: b.c.Position(pos), Status: status, Detail: detail, Path: path})
+		b.infos = append(b.infos, Obligation{Key: fn, Pos: b.c.Position(pos), Status: status, Detail: detail, Path: path, Props: props})
 		return
 	}
-	b.out = append(b.out, Obligation{Key: b.keys.next(fn), Pos: b.c.Position(pos), Status: status, Detail: detail, Path: path})
+	b.out = append(b.out, Obligation{Key: b.keys.next(fn), Pos: b.c.Position(pos), Status: status, Detail: detail, Path: path, Props: props})
 }
 
 // C10 states the tile domain ("tile IDs up to zoom 29").
@@ -109,13 +136,17 @@ func runBitfields(c *Ctx) []Obligation {
 		{label: "type and namespace", enc: cRef{"ingest/compact", "", "CombineTypeAndNamespace"}, decs: []cRef{{"ingest/compact", "TypeAndNamespace", "Split"}}},
 		{label: "value type", enc: cRef{"ingest/compact", "", "EncodeValueType"}, decs: []cRef{{"ingest/compact", "", "DecodeValue"}, {"ingest/compact", "", "inferValueType"}, {"ingest/compact", "MarshalledReferences", "Len"}}},
 		{label: "member role and type", enc: cRef{"ingest/compact", "Members", "Marshal"}, decs: []cRef{{"ingest/compact", "Members", "Unmarshal"}}},
-		{label: "tile ID", enc: cRef{"", "", "TileIDFromXYZ"}, decs: []cRef{{"", "TileID", "ToXYZ"}}, symBound: cTileMaxZoom, symWhat: "zoom"},
+		{label: "tile ID", enc: cRef{"", "", "TileIDFromXYZ"}, decs: []cRef{{"", "TileID", "ToXYZ"}}, symBound: cTileMaxZoom, symWhat: "zoom", after: cTileGuard},
 		{label: "lat/lng ID", enc: cRef{"ingest", "", "NewLatLngID"}, decs: []cRef{{"ingest", "", "LatLngFromID"}}},
-		{label: "GB postcode ID", enc: cRef{"", "", "PointIDFromGBPostcode"}, decs: []cRef{{"", "", "PostcodeFromPointID"}}, domain: cPostcodeDomain},
+		{label: "GB postcode ID", enc: cRef{"", "", "PointIDFromGBPostcode"}, decs: []cRef{{"", "", "PostcodeFromPointID"}}, domain: cPostcodeDomain, after: cPostcodeAlphabet,
+			// C31 (feature IDs survive every encoding) names the postcode IDs' textual form
+			props: []string{"C10", "C31"}},
 		{label: "UK ONS code ID", enc: cRef{"", "", "FeatureIDFromUKONSCode"}, decs: []cRef{{"", "", "UKONSCodeFromFeatureID"}}},
 	}
 	for i := range pairs {
+		b.props = pairs[i].props
 		b.pair(&pairs[i])
+		b.props = nil
 	}
 	b.geometry()
 	b.tags()
@@ -372,6 +403,9 @@ func (b *cBit) pair(sp *cPairSpec) {
 				b.add(d.name, x.pos, Undecided, fmt.Sprintf("%s: cannot compare the width read (%s) with the room of field %s", head, x.width, f.text))
 			}
 		}
+	}
+	if sp.after != nil {
+		sp.after(b, sp, enc, decs)
 	}
 }
 
@@ -1087,4 +1121,432 @@ func (b *cBit) tags() {
 			b.add(name, first, OK, fmt.Sprintf("map tags: constant tags {%s} < 1<<%d, the largest tag width in %s (%s)", strings.Join(list, ","), maxBits, tableName, b.c.Position(tablePos)))
 		}
 	}
+}
+
+// ---------------------------------------------------------------------------------------------
+// GB postcodes: the decoder accepts and inverts every element value the encoder produces
+
+type cPiece struct {
+	lo, hi int64 // inclusive interval of the input
+	k      int64 // output = input + k
+	pos    token.Pos
+	text   string
+}
+
+// cLinear reads e as `x + k` for the object x (conversions are transparent).
+func cLinear(info *types.Info, e ast.Expr, x types.Object) (int64, bool) {
+	e = cStripConv(info, e)
+	switch y := e.(type) {
+	case *ast.Ident:
+		if info.ObjectOf(y) == x {
+			return 0, true
+		}
+	case *ast.BinaryExpr:
+		if y.Op != token.ADD && y.Op != token.SUB {
+			return 0, false
+		}
+		if k, ok := cConstI64(info, y.Y); ok {
+			if a, ok := cLinear(info, y.X, x); ok {
+				if y.Op == token.SUB {
+					return a - k, true
+				}
+				return a + k, true
+			}
+		}
+		if k, ok := cConstI64(info, y.X); ok && y.Op == token.ADD {
+			if a, ok := cLinear(info, y.Y, x); ok {
+				return a + k, true
+			}
+		}
+	}
+	return 0, false
+}
+
+// cEncoderPieces: the guarded plain assignments to the element variable, each linear in one
+// bounded variable (the character).
+func cEncoderPieces(c *Ctx, info *types.Info, fd *ast.FuncDecl, elem types.Object) ([]cPiece, string) {
+	var out []cPiece
+	why := ""
+	ast.Inspect(fd.Body, func(nd ast.Node) bool {
+		as, ok := nd.(*ast.AssignStmt)
+		if !ok || why != "" {
+			return true
+		}
+		for i, l := range as.Lhs {
+			id, ok := ast.Unparen(l).(*ast.Ident)
+			if !ok || info.ObjectOf(id) != elem {
+				continue
+			}
+			if as.Tok != token.ASSIGN && as.Tok != token.DEFINE || len(as.Lhs) != len(as.Rhs) {
+				why = "the element variable is updated by " + as.Tok.String()
+				return false
+			}
+			bounds := map[types.Object]*[2]*int64{}
+			chain := enclosing(fd.Body, as)
+			for j, anc := range chain {
+				if is, ok := anc.(*ast.IfStmt); ok && j+1 < len(chain) && chain[j+1] == ast.Node(is.Body) {
+					cBounds(info, is.Cond, bounds)
+				}
+			}
+			found := false
+			for obj, bnd := range bounds {
+				if bnd[0] == nil || bnd[1] == nil {
+					continue
+				}
+				if k, ok := cLinear(info, as.Rhs[i], obj); ok {
+					out = append(out, cPiece{lo: *bnd[0], hi: *bnd[1], k: k, pos: as.Pos(), text: nodeText(c.Fset, as)})
+					found = true
+				}
+			}
+			if !found {
+				why = "assignment " + nodeText(c.Fset, as) + " is not `character + constant` under a guard bounding the character on both sides"
+				return false
+			}
+		}
+		return true
+	})
+	if why == "" && len(out) == 0 {
+		why = "no assignment to the element variable"
+	}
+	sort.SliceStable(out, func(i, j int) bool { return out[i].lo+out[i].k < out[j].lo+out[j].k })
+	return out, why
+}
+
+// cDecoderPieces: the if/else-if chain over the extracted element v; rejecting reports whether
+// values outside every piece are rejected by a final returning else.
+func cDecoderPieces(c *Ctx, info *types.Info, fd *ast.FuncDecl, v types.Object, unsigned bool) (pieces []cPiece, rejecting bool, why string) {
+	var head *ast.IfStmt
+	ast.Inspect(fd.Body, func(nd ast.Node) bool {
+		if is, ok := nd.(*ast.IfStmt); ok && head == nil && cMentionsObj(info, is.Cond, v) {
+			head = is
+			return false
+		}
+		return head == nil
+	})
+	if head == nil {
+		return nil, false, "no if statement tests the extracted element"
+	}
+	for is := head; is != nil; {
+		bounds := map[types.Object]*[2]*int64{}
+		cBounds(info, is.Cond, bounds)
+		bnd := bounds[v]
+		if bnd == nil || bnd[1] == nil {
+			return nil, false, "condition " + types.ExprString(is.Cond) + " does not bound the element from above with a constant"
+		}
+		lo := int64(0)
+		switch {
+		case bnd[0] != nil:
+			lo = *bnd[0]
+		case !unsigned:
+			return nil, false, "condition " + types.ExprString(is.Cond) + " does not bound the signed element from below"
+		}
+		// the character: the outermost integer expression of the branch that is linear in v
+		var ks []int64
+		var text string
+		ast.Inspect(is.Body, func(nd ast.Node) bool {
+			e, ok := nd.(ast.Expr)
+			if !ok {
+				return true
+			}
+			t := info.TypeOf(e)
+			if t == nil || !cMentionsObj(info, e, v) {
+				return true
+			}
+			if _, _, isInt := cIntType(t); !isInt {
+				return true
+			}
+			if k, ok := cLinear(info, e, v); ok {
+				ks = append(ks, k)
+				text = types.ExprString(e)
+				return false
+			}
+			return true
+		})
+		if len(ks) != 1 {
+			return nil, false, fmt.Sprintf("expected exactly one `constant + element` expression in the branch of %s, found %d", types.ExprString(is.Cond), len(ks))
+		}
+		pieces = append(pieces, cPiece{lo: lo, hi: *bnd[1], k: ks[0], pos: is.Cond.Pos(), text: types.ExprString(is.Cond) + " -> " + text})
+		switch e := is.Else.(type) {
+		case *ast.IfStmt:
+			is = e
+		case *ast.BlockStmt:
+			if n := len(e.List); n > 0 {
+				if _, ok := e.List[n-1].(*ast.ReturnStmt); ok {
+					rejecting = true
+				}
+			}
+			if !rejecting {
+				return nil, false, "the final else neither decodes nor rejects"
+			}
+			is = nil
+		default:
+			is = nil
+		}
+	}
+	for i := range pieces {
+		for j := i + 1; j < len(pieces); j++ {
+			if pieces[i].lo <= pieces[j].hi && pieces[j].lo <= pieces[i].hi {
+				return nil, false, "the decoder's intervals overlap"
+			}
+		}
+	}
+	sort.SliceStable(pieces, func(i, j int) bool { return pieces[i].lo < pieces[j].lo })
+	return pieces, rejecting, ""
+}
+
+func cMentionsObj(info *types.Info, n ast.Node, obj types.Object) bool {
+	found := false
+	ast.Inspect(n, func(m ast.Node) bool {
+		if id, ok := m.(*ast.Ident); ok && info.ObjectOf(id) == obj {
+			found = true
+		}
+		return !found
+	})
+	return found
+}
+
+func cCharText(r int64) string {
+	if r >= 0x20 && r < 0x7f {
+		return fmt.Sprintf("%q", rune(r))
+	}
+	return fmt.Sprintf("character %d", r)
+}
+
+// cPostcodeAlphabet compares the encoder's and the decoder's element maps.
+func cPostcodeAlphabet(b *cBit, sp *cPairSpec, enc *cSide, decs []*cSide) {
+	info := enc.pkg.TypesInfo
+	var elem types.Object
+	var elemPos token.Pos
+	for _, f := range enc.pack.fields {
+		if f.repeated && f.obj != nil && f.bad == "" {
+			elem, elemPos = f.obj, f.pos
+		}
+	}
+	if elem == nil {
+		b.add(enc.name, enc.fd.Pos(), Undecided, sp.label+": alphabet: no repeated element field held in a variable")
+		return
+	}
+	eps, why := cEncoderPieces(b.c, info, enc.fd, elem)
+	if why != "" {
+		b.add(enc.name, elemPos, Undecided, sp.label+": alphabet: "+why)
+		return
+	}
+	for _, d := range decs {
+		dinfo := d.pkg.TypesInfo
+		var v types.Object
+		unsigned := false
+		for _, x := range d.xs {
+			if x.repeated && x.bad == "" && x.dest != nil {
+				if id, ok := ast.Unparen(x.dest).(*ast.Ident); ok {
+					v = dinfo.ObjectOf(id)
+					_, signed, _ := cIntType(dinfo.TypeOf(id))
+					unsigned = !signed
+				}
+			}
+		}
+		if v == nil {
+			b.add(d.name, d.fd.Pos(), Undecided, sp.label+": alphabet: the repeated element is not extracted into a variable")
+			continue
+		}
+		dps, rejecting, why := cDecoderPieces(b.c, dinfo, d.fd, v, unsigned)
+		if why != "" {
+			b.add(d.name, d.fd.Pos(), Undecided, sp.label+": alphabet: "+why)
+			continue
+		}
+		accepts := func(val int64) *cPiece {
+			for i := range dps {
+				if dps[i].lo <= val && val <= dps[i].hi {
+					return &dps[i]
+				}
+			}
+			return nil
+		}
+		for _, e := range eps {
+			head := fmt.Sprintf("%s: alphabet: encoder piece %s..%s -> %d..%d (%s)", sp.label, cCharText(e.lo), cCharText(e.hi), e.lo+e.k, e.hi+e.k, e.text)
+			status, detail := OK, ""
+			at := e.pos
+			for r := e.lo; r <= e.hi && status == OK; r++ {
+				val := r + e.k
+				dp := accepts(val)
+				switch {
+				case dp == nil:
+					how := "falls outside every branch of the decoder"
+					if rejecting {
+						how = "is rejected by the decoder"
+					}
+					var iv []string
+					for _, p := range dps {
+						iv = append(iv, fmt.Sprintf("%d..%d", p.lo, p.hi))
+					}
+					status, at = Violation, dps[len(dps)-1].pos
+					detail = fmt.Sprintf("value %d (%s) is produced by the encoder but %s, which accepts %s", val, cCharText(r), how, strings.Join(iv, ", "))
+				case val+dp.k != r:
+					status, at = Violation, dp.pos
+					detail = fmt.Sprintf("value %d encodes %s but the decoder's branch `%s` turns it into %s: not the inverse", val, cCharText(r), dp.text, cCharText(val+dp.k))
+				}
+			}
+			if status == OK {
+				detail = fmt.Sprintf("every value is accepted by %s and decoded back to the same character", d.name)
+			}
+			b.add(d.name, at, status, head+": "+detail)
+		}
+		// what the decoder accepts but the encoder never produces
+		produced := func(val int64) bool {
+			for _, e := range eps {
+				if e.lo+e.k <= val && val <= e.hi+e.k {
+					return true
+				}
+			}
+			return false
+		}
+		for _, p := range dps {
+			var extra []string
+			for val := p.lo; val <= p.hi && len(extra) < 4; val++ {
+				if !produced(val) {
+					extra = append(extra, fmt.Sprint(val))
+				}
+			}
+			if len(extra) > 0 {
+				b.add(d.name, p.pos, Info, fmt.Sprintf("%s: alphabet: the decoder's branch `%s` also accepts values the encoder never produces (%s…)", sp.label, p.text, strings.Join(extra, ", ")))
+			}
+		}
+	}
+}
+
+// ---------------------------------------------------------------------------------------------
+// tile IDs: a rejecting guard on the zoom accepts exactly the zooms whose layout fits
+
+func cTileGuard(b *cBit, sp *cPairSpec, enc *cSide, decs []*cSide) {
+	info := enc.pkg.TypesInfo
+	pk := enc.pack
+	// the zoom field: the constant-shift field whose value is used as a symbolic shift
+	zi := -1
+	for i, f := range pk.fields {
+		if f.bad != "" || !f.shift.isConst() || f.obj == nil {
+			continue
+		}
+		name := fmt.Sprintf("value of the field at shift %d", f.shift.k)
+		for _, g := range pk.fields {
+			if g.shift.sym == name {
+				zi = i
+			}
+		}
+	}
+	if zi < 0 {
+		return
+	}
+	z := pk.fields[zi]
+	// resolve an operand to the zoom variable (through conversions and once-defined locals)
+	var isZ func(e ast.Expr, depth int) bool
+	isZ = func(e ast.Expr, depth int) bool {
+		id, ok := cStripConv(info, e).(*ast.Ident)
+		if !ok || depth > 3 {
+			return false
+		}
+		if info.ObjectOf(id) == z.obj {
+			return true
+		}
+		key := cKey(info, id)
+		if chains, ok := enc.w.ev.env[key]; ok && !enc.w.ev.multi[key] && len(chains) == 1 && !chains[0].isConst && len(chains[0].shape()) == 0 && chains[0].leaf != nil {
+			return isZ(chains[0].leaf, depth+1)
+		}
+		return false
+	}
+	// fit: z + z <= shift of the zoom field (x and y need z bits each below it), z < 1<<zBits
+	zBits := int64(pk.W) - z.shift.k
+	fitMax := z.shift.k / 2
+	if zBits < 62 && fitMax > int64(1)<<uint(zBits)-1 {
+		fitMax = int64(1)<<uint(zBits) - 1
+	}
+	bitsAt := func(zoom int64) int64 { return zBits + 2*zoom }
+	for _, st := range enc.fd.Body.List {
+		is, ok := st.(*ast.IfStmt)
+		if !ok || is.Pos() > pk.pos || is.Else != nil || len(is.Body.List) == 0 || !cMentionsObj(info, is.Cond, z.obj) && !cCondMentions(info, is.Cond, isZ) {
+			continue
+		}
+		if _, isRet := is.Body.List[len(is.Body.List)-1].(*ast.ReturnStmt); !isRet {
+			continue
+		}
+		head := fmt.Sprintf("%s: zoom guard `if %s`", sp.label, types.ExprString(is.Cond))
+		// accepted zooms: the complement of the disjuncts on z
+		accMax, why := int64(1)<<62, ""
+		var disj func(e ast.Expr)
+		disj = func(e ast.Expr) {
+			be, ok := ast.Unparen(e).(*ast.BinaryExpr)
+			if !ok {
+				if cCondMentions(info, e, isZ) {
+					why = "condition " + types.ExprString(e) + " is not a comparison"
+				}
+				return
+			}
+			if be.Op == token.LOR {
+				disj(be.X)
+				disj(be.Y)
+				return
+			}
+			var k int64
+			op := be.Op
+			switch {
+			case isZ(be.X, 0):
+				v, ok := cConstI64(info, be.Y)
+				if !ok {
+					why = "the zoom is compared with the non-constant " + types.ExprString(be.Y)
+					return
+				}
+				k = v
+			case isZ(be.Y, 0):
+				v, ok := cConstI64(info, be.X)
+				if !ok {
+					why = "the zoom is compared with the non-constant " + types.ExprString(be.X)
+					return
+				}
+				k = v
+				op = map[token.Token]token.Token{token.GTR: token.LSS, token.GEQ: token.LEQ, token.LSS: token.GTR, token.LEQ: token.GEQ}[be.Op]
+			default:
+				if cCondMentions(info, e, isZ) {
+					why = "condition " + types.ExprString(e) + " is not a comparison of the zoom with a constant"
+				}
+				return
+			}
+			switch op { // rejected when true: accepted zooms end below
+			case token.GTR:
+				if k < accMax {
+					accMax = k
+				}
+			case token.GEQ:
+				if k-1 < accMax {
+					accMax = k - 1
+				}
+			default:
+				why = "comparison " + types.ExprString(e) + " does not bound the zoom from above"
+			}
+		}
+		disj(is.Cond)
+		switch {
+		case why != "":
+			b.add(enc.name, is.Pos(), Undecided, head+": "+why)
+		case accMax == int64(1)<<62:
+			continue
+		case accMax < fitMax:
+			b.add(enc.name, is.Pos(), Violation, fmt.Sprintf("%s accepts zooms up to %d, but zoom %d fits the word (%d + 2*%d = %d bits of %d) and is rejected", head, accMax, accMax+1, zBits, accMax+1, bitsAt(accMax+1), pk.W))
+		case accMax > fitMax:
+			b.add(enc.name, is.Pos(), Violation, fmt.Sprintf("%s accepts zooms up to %d, but zoom %d does not fit: it needs %d + 2*%d = %d bits of %d (or more than %d zoom bits)", head, accMax, fitMax+1, zBits, fitMax+1, bitsAt(fitMax+1), pk.W, zBits))
+		default:
+			b.add(enc.name, is.Pos(), OK, fmt.Sprintf("%s accepts exactly the zooms 0..%d whose layout fits (%d + 2*%d = %d bits of %d)", head, accMax, zBits, accMax, bitsAt(accMax), pk.W))
+		}
+	}
+}
+
+// cCondMentions reports whether some operand of the condition resolves to the zoom.
+func cCondMentions(info *types.Info, e ast.Expr, isZ func(ast.Expr, int) bool) bool {
+	found := false
+	ast.Inspect(e, func(n ast.Node) bool {
+		if x, ok := n.(ast.Expr); ok && !found {
+			if _, isID := cStripConv(info, x).(*ast.Ident); isID && isZ(x, 0) {
+				found = true
+			}
+		}
+		return !found
+	})
+	return found
 }
